@@ -29,10 +29,12 @@ Definition full_program (u : program) : program :=
 
 (* ------------------------------------------------------------------------------------------------ *)
 (* which rules are applied to a FACT when it is created (rules are applied to goals by activate_goal):
-     state_variable::new_atom      Interval                         (solver/types/state_variable.cpp)
-     reusable_resource::new_atom   Use                              (solver/types/reusable_resource.cpp)
-     agent::new_atom               Impulse if the predicate is an impulse, else Interval   (solver/types/agent.cpp)
+     state_variable::new_atom      (Impulse if the predicate is an impulse,) Interval     (solver/types/state_variable.cpp)
+     reusable_resource::new_atom   (Impulse if the predicate is an impulse,) Use          (solver/types/reusable_resource.cpp)
+     agent::new_atom               Impulse if the predicate is an impulse, Interval if it is an interval   (solver/types/agent.cpp)
      solver::new_atom              for facts no smart type is notified of: Impulse if impulse, Interval if interval
+   (the Impulse rule on smart types is the behaviour after notes/fixes/C06-02: before it, agent::new_atom chose `impulse else
+   interval` and the other smart types never applied the Impulse rule - the differential reports that as a missing rule)
    each under the atom's own sigma (set_ni(sigma)), i.e. whenever the fact is active *)
 (* ------------------------------------------------------------------------------------------------ *)
 From ORatio Require Import plan.Sem.
@@ -50,12 +52,11 @@ Definition owner_kind_of (prog : program) (pd : pred_decl) : owner_kind :=
   end.
 
 Definition fact_rules (prog : program) (pd : pred_decl) (chain_names : list ident) : list ident :=
+  let imp := if mem id_Impulse chain_names then [id_Impulse] else [] in
   match owner_kind_of prog pd with
-  | OwnSV => [id_Interval]
-  | OwnRR => [id_Use]
-  | OwnAgent => if mem id_Impulse chain_names then [id_Impulse] else [id_Interval]
-  | OwnPlain => (if mem id_Impulse chain_names then [id_Impulse] else []) ++
-                (if mem id_Interval chain_names then [id_Interval] else [])
+  | OwnSV => imp ++ [id_Interval]
+  | OwnRR => imp ++ [id_Use]
+  | OwnAgent | OwnPlain => imp ++ (if mem id_Interval chain_names then [id_Interval] else [])
   end.
 
 (* the predicates whose bodies are executed on a new fact, in order (apply_rule: super-predicates first) *)
